@@ -115,6 +115,8 @@ class Segment(GeoBody):
             self.end_point = value
         else:
             raise IndexError("Index out of range")
+        # the cached carrier line has to follow the end points
+        self.line = Line(self.start_point, self.end_point)
 
     def move(self, v):
         """Return the Segment that you get when you move self by vector v, self is also moved"""
